@@ -62,6 +62,8 @@ type Result struct {
 	WallSec      float64
 	Log          string
 	NontrivPaths int // paths that reached an assertion needing the solver
+	KnownHits    []string
+	Witnesses    []WitnessRec
 }
 
 type LabelStat struct {
@@ -151,6 +153,7 @@ func (p *Program) Run(entry string, opt Options) *Result {
 					ex.Unwind = opt.Unwind
 				}
 				ex.Trace = opt.Trace
+				ex.entry = entry
 				outcome, viol := p.runPath(ex, fn)
 
 				mu.Lock()
@@ -210,6 +213,20 @@ func (p *Program) Run(entry string, opt Options) *Result {
 					}
 				}
 				res.Violations = append(res.Violations, viol...)
+				for _, h := range ex.KnownHits {
+					res.KnownHits = appendUniq(res.KnownHits, h)
+				}
+				for _, w := range ex.Witnesses {
+					dup := false
+					for _, o := range res.Witnesses {
+						if o.Label == w.Label {
+							dup = true
+						}
+					}
+					if !dup {
+						res.Witnesses = append(res.Witnesses, w)
+					}
+				}
 				if len(res.Samples) < 6 || (len(viol) > 0 && len(res.Samples) < 12) {
 					ps := PathSample{Decisions: decString(ex.decs), PCSize: len(ex.pc), Outcome: outcome}
 					for _, a := range ex.Asserts {
@@ -316,6 +333,35 @@ func (ex *Exec) CheckAssert(cond *Term, label string) {
 	case Unsat:
 		ex.Asserts = append(ex.Asserts, AssertResult{Label: label, Holds: true, Result: Unsat})
 	case Sat:
+		// known-finding regions: a failure is only a (new) violation if it also occurs outside
+		// every active known region declared by the harness on this path
+		var excl []*Term
+		for _, k := range ex.known {
+			if ActiveKnown[k.id] {
+				excl = append(excl, Not(k.cond))
+			}
+		}
+		if len(excl) > 0 {
+			for _, k := range ex.known {
+				if ActiveKnown[k.id] {
+					if rk, _ := ex.S.CheckSat([]*Term{neg, k.cond}, nil); rk == Sat {
+						ex.KnownHits = appendUniq(ex.KnownHits, k.id)
+					}
+				}
+			}
+			r2, m2 := ex.S.CheckSat(append([]*Term{neg}, excl...), ex.Inputs)
+			if r2 == Unsat {
+				ex.Asserts = append(ex.Asserts, AssertResult{Label: label, Holds: true, Result: Unsat})
+				ex.Assume(cond)
+				return
+			}
+			if r2 == Unknown {
+				ex.unknowns++
+				ex.Asserts = append(ex.Asserts, AssertResult{Label: label, Holds: true, Result: Unknown})
+				return
+			}
+			m = m2
+		}
 		model := map[string]string{}
 		for _, in := range ex.Inputs {
 			model[ex.InputLbl[in.ID]] = m[in.ID]
